@@ -243,6 +243,7 @@ def main(argv=None):
             batch.append(item)
             index.append(("sample", hname, s))
     confirmed = []
+    cut_replayed_ok = []
     validated = 0
     disagreements = []
     if batch:
@@ -259,6 +260,9 @@ def main(argv=None):
                 if v["label"] in r["violations"]:
                     path = _write_replay(prop, modname, hname, v)
                     confirmed.append((hname, v, path))
+                elif v["label"].startswith("hang:") and r["outcome"] == "done" and not r["violations"]:
+                    # a path cut by the unwinding budget whose concrete replay returns in time
+                    cut_replayed_ok.append((hname, v))
                 else:
                     engine_errors.append(
                         "%s: counterexample for %r did not reproduce on the plain code (got %r, outcome %s %s)"
@@ -288,6 +292,11 @@ def main(argv=None):
             if not args.only:
                 lines.append("NOTE: known finding %s was not re-confirmed by this run" % k["key"])
 
+    if cut_replayed_ok:
+        lines.append(
+            "NOTE: %d path(s) cut by the unwinding budget (%s); their concrete replays returned within the watchdog limit - the rest of those paths is outside the claim"
+            % (total.cut, ", ".join(sorted({h for h, _ in cut_replayed_ok})))
+        )
     for hname, v, path in confirmed:
         lines.append("VIOLATION property=%s replay=%s" % (prop, path))
         lines.append("  harness=%s label=%s %s" % (hname, v["label"], v.get("detail", "")))
